@@ -13,3 +13,166 @@ Theorem C15_case_sound :
       Forall (fun o => o = okout) (traceA (mstep_s d mid mon) (power_up_s d, m0) ins).
 Proof. exact mcheck_s_sound. Qed.
 Print Assumptions C15_case_sound.
+
+(** ** all-delay theorems about the AS-CODED model of std.SyncFlag / std.Mailbox (Models/Handover.v: the toggle
+    registers [_set_tx]/[_set_rx], the two delay lines as lists of [tx]/[rx] booleans, [Mailbox._data], the
+    comparisons each context makes; [g] = guarded wrapper (MBOX_TWO, FLAG_TWO) / unguarded (FLAG_UNGUARDED),
+    [p] = Mailbox (payload) / SyncFlag).  [hin] = (send, want, din) of one clock; [htrace] = the wrapper outputs
+    (sent, got, dout) after each clock; [sent_of ins tr] = the values offered in clocks with [sent] raised,
+    [recv_of tr] = the values on [dout] in clocks with [got] raised.  Quantifiers: all tx, rx : nat (zero included),
+    all payloads (any integer, so any width), all input sequences (all relative timings). *)
+From Coq Require Import Lia.
+From Cohdl Require Import Models.Handover Models.HandoverProofs.
+Local Open Scope Z_scope.
+
+(** the invariant over the delay-line contents, after every input sequence: the registers and lines hold ONE
+    edge of the toggle protocol, [Full k]: in the tx line, sent k clocks ago; [Empty k]: in the rx line *)
+Theorem C15_handover_invariant_all_delays : forall (tx rx : nat) (g p : bool) (ins : list hin),
+  exists b ph, Ph tx rx b ph (hrun g p (hinit tx rx) ins).
+Proof. intros; apply hrun_inv, hinit_inv. Qed.
+Print Assumptions C15_handover_invariant_all_delays.
+
+(** (a) exactly once, in order, unmodified: the sent values are the received values followed by the item
+    still in the slot (at most one), at every point of every run *)
+Theorem C15_exactly_once_all_delays : forall (tx rx : nat) (g : bool) (ins : list hin),
+  let tr := htrace g true (hinit tx rx) ins in
+  sent_of ins tr = recv_of tr ++ pending (hrun g true (hinit tx rx) ins) /\
+  (length (pending (hrun g true (hinit tx rx) ins)) <= 1)%nat.
+Proof. exact handover_exactly_once. Qed.
+Print Assumptions C15_exactly_once_all_delays.
+
+(** (a) the consumer never sees the flag set before the data register holds the value sent *)
+Theorem C15_set_implies_data_valid_all_delays : forall (tx rx : nat) (g : bool) (ins : list hin),
+  let tr := htrace g true (hinit tx rx) ins in
+  let s := hrun g true (hinit tx rx) ins in
+  is_set_c s = true -> sent_of ins tr = recv_of tr ++ [data s].
+Proof. exact set_implies_data_valid. Qed.
+Print Assumptions C15_set_implies_data_valid_all_delays.
+
+(** (a) the producer never overwrites an unconsumed item: it only sends when it sees clear, and then
+    everything sent has been received *)
+Theorem C15_clear_implies_consumed_all_delays : forall (tx rx : nat) (g : bool) (ins : list hin),
+  let tr := htrace g true (hinit tx rx) ins in
+  let s := hrun g true (hinit tx rx) ins in
+  is_clear_p s = true -> sent_of ins tr = recv_of tr.
+Proof. exact clear_implies_consumed. Qed.
+Print Assumptions C15_clear_implies_consumed_all_delays.
+
+(** [sent] only with the producer seeing clear, [got] only with the consumer seeing set, never both in one
+    clock; an unguarded [set()] while not clear has no effect on [_set_tx] *)
+Theorem C15_events_guarded_all_delays : forall (tx rx : nat) (g p : bool) (s : hstate) (sd wt : bool) (dv : Z),
+  Inv tx rx s ->
+  let o := snd (hstep g p s sd wt dv) in
+  fst (fst o) = sd && is_clear_p s /\ snd (fst o) = wt && is_set_c s /\
+  (fst (fst o) && snd (fst o) = false) /\
+  (is_clear_p s = false -> set_tx (fst (hstep g p s sd wt dv)) = set_tx s).
+Proof. exact events_guarded. Qed.
+Print Assumptions C15_events_guarded_all_delays.
+
+(** with or without payload: the pulses alternate, starting with [sent] *)
+Theorem C15_pulses_alternate_all_delays : forall (tx rx : nat) (g p : bool) (ins : list hin),
+  let tr := htrace g p (hinit tx rx) ins in
+  (count_got tr <= count_sent tr <= count_got tr + 1)%nat.
+Proof. exact handover_counts. Qed.
+Print Assumptions C15_pulses_alternate_all_delays.
+
+(** (b) bounded response, exact: after a clock with [sent] the consumer sees the flag set after exactly tx
+    further clocks (not earlier), whatever the inputs *)
+Theorem C15_send_visible_after_tx_delay : forall (tx rx : nat) (g p : bool) (s : hstate) (sd wt : bool) (dv : Z),
+  Inv tx rx s -> fst (fst (snd (hstep g p s sd wt dv))) = true ->
+  forall js, (length js <= tx)%nat ->
+    is_set_c (hrun g p (fst (hstep g p s sd wt dv)) js) = Nat.eqb (length js) tx.
+Proof. exact send_visible_after_tx_delay. Qed.
+Print Assumptions C15_send_visible_after_tx_delay.
+
+(** (b) the clear path: after a clock with [got] the producer sees the flag clear after exactly rx further clocks *)
+Theorem C15_receive_visible_after_rx_delay : forall (tx rx : nat) (g p : bool) (s : hstate) (sd wt : bool) (dv : Z),
+  Inv tx rx s -> snd (fst (snd (hstep g p s sd wt dv))) = true ->
+  forall js, (length js <= rx)%nat ->
+    is_clear_p (hrun g p (fst (hstep g p s sd wt dv)) js) = Nat.eqb (length js) rx.
+Proof. exact receive_visible_after_rx_delay. Qed.
+Print Assumptions C15_receive_visible_after_rx_delay.
+
+(** (b) once visible it stays visible until asked for, and is then served in that very clock *)
+Theorem C15_visible_until_served : forall (tx rx : nat) (g p : bool) (s : hstate) (sd wt : bool) (dv : Z),
+  Inv tx rx s ->
+  (is_set_c s = true ->
+     snd (fst (snd (hstep g p s sd wt dv))) = wt /\
+     (wt = false -> is_set_c (fst (hstep g p s sd wt dv)) = true)) /\
+  (is_clear_p s = true ->
+     fst (fst (snd (hstep g p s sd wt dv))) = sd /\
+     (sd = false -> is_clear_p (fst (hstep g p s sd wt dv)) = true)).
+Proof. exact visible_until_served. Qed.
+Print Assumptions C15_visible_until_served.
+
+(** the model satisfies the monitor of the per-configuration cases for every bound K >= max tx rx
+    (harness/c15.py uses K = 2 (tx + rx) + 3), every strictness, with and without payload *)
+Theorem C15_model_satisfies_monitor_all_delays :
+  forall (tx rx : nat) (g p : bool) (w : BinNums.N) (K : Z) (strict : bool),
+  Z.of_nat (Nat.max tx rx) <= K ->
+  forall ins, Forall (fun i => wf_in p i = true) ins ->
+    Forall (fun o => o = okout)
+           (traceA (rmstep (ho_rstep tx g p w) (chan_monitor K strict)) (ho_init tx rx, [0; 0; 0; 0]) ins).
+Proof. exact ho_monitor_ok. Qed.
+Print Assumptions C15_model_satisfies_monitor_all_delays.
+
+(** the [list Z] machine the '*_model' cases of harness/c15.py compare the emitted VHDL with IS the record model *)
+Theorem C15_model_machine_trace : forall (tx rx : nat) (g p : bool) (w : BinNums.N) (ins : list hin),
+  traceB (ho_rstep tx g p w) (ho_init tx rx) (map (hin_val w) ins) =
+  map (fun o => Ok (hout w o)) (htrace g p (hinit tx rx) ins).
+Proof. exact ho_rstep_trace. Qed.
+Print Assumptions C15_model_machine_trace.
+
+(** tie to the code, every configuration at once: the two computed hypotheses are what the '*_model' case file
+    of a configuration proves for its parsed design d (non-vacuity: each such case file); then the monitor never
+    flags on the emitted VHDL for ANY bound K >= max tx rx *)
+Theorem C15_code_satisfies_monitor_all_delays :
+  forall d mid alphabet fuel (tx rx : nat) (g p : bool) (w : BinNums.N) (K : Z) (strict : bool),
+  conc_all_ok (auto_Ts d) d = true ->
+  is_ok (rcheck_s d mid (ho_rstep tx g p w) alphabet (fun _ _ => true) fuel (ho_init tx rx)) = true ->
+  forallb (wf_in p) alphabet = true ->
+  Z.of_nat (Nat.max tx rx) <= K ->
+  forall ins, Forall (fun i => In i alphabet) ins ->
+    Forall (fun o => o = okout)
+           (traceA (mstep_s d mid (chan_monitor K strict)) (power_up_s d, [0; 0; 0; 0]) ins).
+Proof. exact ho_code_tie. Qed.
+Print Assumptions C15_code_satisfies_monitor_all_delays.
+
+(** ... and the emitted VHDL hands over exactly once, in order, unmodified, on its ports *)
+Theorem C15_code_exactly_once_all_delays :
+  forall d mid alphabet fuel (tx rx : nat) (g : bool) (w : BinNums.N),
+  conc_all_ok (auto_Ts d) d = true ->
+  is_ok (rcheck_s d mid (ho_rstep tx g true w) alphabet (fun _ _ => true) fuel (ho_init tx rx)) = true ->
+  forall ins : list hin, Forall (fun i => In (hin_val w i) alphabet) ins ->
+    exists tr rest,
+      traceA (sstep d mid) (power_up_s d) (map (hin_val w) ins) = map (fun o => Ok (hout w o)) tr /\
+      sent_of ins tr = recv_of tr ++ rest /\ (length rest <= 1)%nat.
+Proof. exact ho_code_exactly_once. Qed.
+Print Assumptions C15_code_exactly_once_all_delays.
+
+(** non-vacuity at tx = 2, rx = 1: two items go through; the first is sent in clock 0 and received in clock
+    3 = 0 + tx + 1 although the consumer asks from clock 0; the producer (asking all the time) gets its second
+    send in clock 5 = 3 + rx + 1; both contexts see their flag (hypotheses of the theorems above are met) *)
+Definition C15_handover_example : list hin :=
+  [(true, true, 5); (true, true, 6); (true, true, 7); (true, true, 8); (true, true, 9);
+   (true, false, 1); (true, true, 2); (false, true, 3); (false, true, 0); (false, true, 0)].
+Example C15_handover_nonvacuous :
+  htrace true true (hinit 2 1) C15_handover_example =
+    [(true, false, 0); (false, false, 0); (false, false, 0); (false, true, 5); (false, false, 5);
+     (true, false, 5); (false, false, 5); (false, false, 5); (false, true, 1); (false, false, 1)] /\
+  sent_of C15_handover_example (htrace true true (hinit 2 1) C15_handover_example) = [5; 1] /\
+  recv_of (htrace true true (hinit 2 1) C15_handover_example) = [5; 1] /\
+  is_set_c (hrun true true (hinit 2 1) (firstn 3 C15_handover_example)) = true /\
+  data (hrun true true (hinit 2 1) (firstn 3 C15_handover_example)) = 5 /\
+  is_clear_p (hrun true true (hinit 2 1) (firstn 5 C15_handover_example)) = true /\
+  Forall (fun i => wf_in true i = true) (map (hin_val 4) C15_handover_example).
+Proof. vm_compute. repeat split; repeat constructor. Qed.
+
+(** the bound of [C15_model_satisfies_monitor_all_delays] is exact: at tx = 2, rx = 1 the monitor with
+    K = 2 = max tx rx accepts this run and the monitor with K = 1 flags it *)
+Example C15_monitor_bound_exact :
+  all_okout (traceA (rmstep (ho_rstep 2 true true 4) (chan_monitor 2 true)) (ho_init 2 1, [0; 0; 0; 0])
+                    (map (hin_val 4) C15_handover_example)) = true /\
+  all_okout (traceA (rmstep (ho_rstep 2 true true 4) (chan_monitor 1 true)) (ho_init 2 1, [0; 0; 0; 0])
+                    (map (hin_val 4) C15_handover_example)) = false.
+Proof. vm_compute. split; reflexivity. Qed.
